@@ -21,9 +21,9 @@ from fractions import Fraction
 META = {
     "id": "C16",
     "level": "model_checking",
-    "technique": "TLA+ spec Decoupling: published decoupling constants + logarithmic coefficients derived in the spec from RG invariance (Picard solution in L over truncated polynomials in (a, L), literature beta/gamma_m from Coeffs); TLC proves the derivation equal to the published logarithms for POLE and MSBAR, nl 3-5, and refutes 3 altered RG equations; the tables of eko.couplings are recovered exactly and judged cell by cell by the TLC trace spec DecouplingTrace, together with continuity and the composition-inverse law",
+    "technique": "TLA+ spec Decoupling: published decoupling constants + logarithmic coefficients derived in the spec from RG invariance (Picard solution in L over truncated polynomials in (a, L), literature beta/gamma_m from Coeffs); TLC proves the derivation equal to the published logarithms for POLE and MSBAR, nl 3-5, and refutes 3 altered RG equations; the tables of eko.couplings are recovered exactly and judged cell by cell by the TLC trace spec DecouplingTrace, together with continuity and the composition-inverse law; decoupling steps of real Couplings.a queries (quark index of the ratio, table direction, nf, per-patch runs) validated against Atlas!Path by CouplingStepsTrace",
     "text": "For POLE and MSBAR and nl = 3,4,5 the 4x4 tables returned by compute_matching_coeffs_up and compute_matching_coeffs_down are recovered as exact rationals / printed decimals. TLC requires: constants c20, c30 equal to the published values; c10 = 0 and an empty a^1 row (unit ratio at L = 0 for LO and NLO); every logarithmic coefficient c11, c21, c22, c31, c32, c33 equal to the value that renormalisation-group invariance dictates, derived in the spec from beta^(nl), beta^(nl+1) and, for MSBAR, gamma_m^(nl+1); down(up(a)) = up(down(a)) = a as polynomials in (a, L) through every order 1-4.",
-    "note": "Exact part only (mode A). MSBAR: L = ln(mu^2/m(mu)^2) with the running mass of the (nl+1)-flavour theory, the convention under which the code's c20 = -22/9 and c21 = 22/3 are the published ones. The per-step behaviour of Couplings.a (which table, which L, which direction along an Atlas path) belongs to the S part of C16.",
+    "note": "MSBAR: L = ln(mu^2/m(mu)^2) with the running mass of the (nl+1)-flavour theory, the convention under which the code's c20 = -22/9 and c21 = 22/3 are the published ones. Step structure (mode S): for random matching scales, reference points in ANY patch (also outside their natural one or exactly on a matching scale) and any target, the real Couplings.a is observed through recording wrappers (which quark's matching ratio it reads, which coefficient table up/down with which nf, which per-patch solutions it requests) and TLC (CouplingStepsTrace) compares with Atlas!Path: the coupling depends only on the path dictated by the matching scales. History independence of the same object is C17",
     "design_ref": "4.10, 5 C16",
     "rule": "instance = (scheme, nl); 16 cells of the upward table + inverse law per instance; all non-trivial",
 }
@@ -120,3 +120,33 @@ def run(chk):
     if not ("c32" in got.get(1, "") and "c10" in got.get(2, "") and "inverse" in got.get(3, "")):
         raise MachineryError(f"binding demonstration failed: {got}")
     chk.note("binding_demo", "3 corrupted tables rejected (logarithm, NLO discontinuity, non-inverse downward table)")
+
+    # ---- step structure: reference point in any patch, target in any patch ------------------
+    import multiprocessing as mp
+
+    from harness.drivers import couplings as cpl
+
+    n = 6000 if chk.thorough() else 800
+    seeds = [chk.rng.randrange(2**31) for _ in range(n)]
+    with mp.get_context("fork").Pool(16) as pool:
+        srecs = pool.map(cpl.steps_instance, seeds, chunksize=16)
+    for sr in srecs:
+        chk.count(1, (tuple(sr["ms"]), tuple(sr["ref"]), tuple(sr["target"])), nontrivial=len(sr["dec"]) >= 1)
+    chk.sample(next(x for x in srecs if len(x["dec"]) >= 2))
+    rs = chk.tlc("CouplingStepsTrace", "CouplingStepsTrace.cfg", trace=srecs, workers=1, label="decoupling steps of real queries vs Atlas path")
+    if rs.violated or not rs.completed:
+        raise MachineryError(f"CouplingStepsTrace not accepted: {rs.out[-1500:]}")
+    chk.cov["traces_validated_against_impl"] += len(srecs)
+    seen = set()
+    for t in rs.printed("BAD"):
+        sr = srecs[t[1] - 1]
+        if t[2] in seen:
+            continue
+        seen.add(t[2])
+        chk.violation(t[2], f"{t[2]}: matching scales {sr['ms']} reference {sr['ref']} target {sr['target']} order {sr['order']} {sr['scheme']}: steps {sr['dec']} runs {sr['runs']}", sr)
+    import copy as _copy
+    g = _copy.deepcopy(next(x for x in srecs if len(x["dec"]) >= 1))
+    g["dec"][0]["quark"] = (g["dec"][0]["quark"] + 1) % 3
+    rb = chk.tlc("CouplingStepsTrace", "CouplingStepsTrace.cfg", trace=[g], workers=1, label="corrupted step record (must be rejected)")
+    if not [t for t in rb.printed("BAD") if t[2].startswith("C16:")]:
+        raise MachineryError("binding demonstration (steps) failed")
